@@ -20,7 +20,8 @@ RULE = (
     "of length 1..B in generated order} x options (time as int / float / "
     "'h:m:s' / hours+minutes+seconds, gigabytes or mem, num_workers with "
     "num_procs, extra header flags incl. None/True values, launcher, setup "
-    "code, conda_env False).  Layer 1 (every case): bash -n accepts the "
+    "code, conda_env False) x crop parent_dir absolute / relative / the "
+    "current directory x ids as python or numpy integers.  Layer 1 (every case): bash -n accepts the "
     "script; the here-document body, with the scheduler variable substituted, "
     "compiles as Python and is then RUN once per task index against stub "
     "grow/Crop objects: the union of the batch ids the tasks would grow must "
@@ -33,7 +34,9 @@ RULE = (
     "interpreter under test; stderr must show no Traceback/SyntaxError, "
     "stdout the start and finish markers, the result files created must be "
     "exactly the intended ids and every setting of those batches evaluated "
-    "exactly once (call log written by the harness function).  Layer 3: when "
+    "exactly once (call log written by the harness function) and every new "
+    "result file holds its batch's results in the batch's order (with "
+    "num_workers the function is slowest on a batch's first setting).  Layer 3: when "
     "that completes the crop it is ready and reap() equals the direct run.  "
     "The same oracle for the xyzpy-grow command line.  Non-trivial = a "
     "partially grown crop or explicit ids not in ascending order."
@@ -56,10 +59,25 @@ def xyz():
     return core.import_target()
 
 
-def build(x, root, case, logfile):
-    fn = crops.record("int", logfile)
+def crop_parent(case, root):
+    """-> (directory that holds the crop, parent_dir argument, cwd to use)"""
+    style = case.get("parent_style", "abs")
+    if style == "rel":
+        return os.path.join(root, "runs", "sub"), os.path.join("runs", "sub")
+    if style == "cwd":
+        return root, None
+    return root, root
+
+
+def build(x, top, case, logfile):
+    slow = (0.12, case["N"]) if case.get("slow") else None
+    fn = crops.record("int", logfile, slow)
     N, B = case["N"], case["B"]
-    crop = x.Crop(fn=fn, name="c16", parent_dir=root, num_batches=B)
+    root, parg = crop_parent(case, top)
+    os.makedirs(root, exist_ok=True)
+    # (the harness process sits in ``top`` while the crop is created and the
+    # script generated, like a user in their project directory)
+    crop = x.Crop(fn=fn, name="c16", parent_dir=parg, num_batches=B)
     crop.sow_combos({"a": list(range(N))}, verbosity=0)
     B = len(crops.batch_ids(root, "c16"))
     pre = sorted({i % B + 1 for i in case["pre_grown"]})
@@ -96,9 +114,17 @@ def gen_script(x, crop, case, root, ids):
     opts.setdefault("conda_env", False)
     bi = None
     if case["batch_ids"] is not None:
+        import numpy as np
         sp = case.get("ids_spelling", "tuple")
         bi = ids[0] if (sp == "int" and len(ids) == 1) else \
             (list(ids) if sp == "list" else tuple(ids))
+        if sp == "np_tuple":      # e.g. tuple(np.arange(...)[mask])
+            bi = tuple(np.int64(i) for i in ids)
+        elif sp == "np_array":
+            bi = np.array(ids)
+        elif sp == "np_int":
+            bi = np.int64(ids[0]) if len(ids) == 1 else \
+                [np.int32(i) for i in ids]
     with under_test("gen_cluster_script"):
         if case.get("via_partial"):
             meth = getattr(crop, f"gen_{sched.lower()}_script")
@@ -124,6 +150,20 @@ def static_checks(case, script, ids, root):
     except SyntaxError as e:
         core.violated("embedded-python-invalid",
                       f"{e}: line {e.lineno}: {e.text!r}\n{body[-400:]}")
+    # wherever the job starts, the program must find the crop: the embedded
+    # parent_dir, taken from the directory the script changes into (itself
+    # taken from where the script was generated), is the crop's directory
+    mcd = re.search(r"^cd (.*)$", script, re.M)
+    mpd = re.search(r"parent_dir='([^']*)'", body)
+    require(mcd is not None and mpd is not None, "no-directory-lines",
+            script[-600:])
+    want_dir = os.path.realpath(crop_parent(case, root)[0])
+    cd_dir = os.path.realpath(os.path.join(root, mcd.group(1)))
+    got_dir = os.path.realpath(os.path.join(cd_dir, mpd.group(1)))
+    require(got_dir == want_dir, "crop-directory",
+            f"the script changes into {mcd.group(1)!r} and opens the crop "
+            f"with parent_dir={mpd.group(1)!r}, i.e. {got_dir}; the crop is "
+            f"in {want_dir}")
     # documented header flags: None/True values are bare flags
     flag = {"sge": "#$ -l {}", "pbs": "#PBS -l {}", "slurm": "#SBATCH --{}"}
     for k_, v_ in case["opts"].items():
@@ -206,10 +246,15 @@ def check_simulation(case, script, tasks, ids, missing_now):
 
 def run_static(case):
     x = xyz()
+    cwd0 = os.getcwd()
     with core.scratch("xv-c16-") as root:
-        crop, fn, B, pre, _ = build(x, root, case, None)
-        ids = intended(case, B, pre)
-        script = gen_script(x, crop, case, root, ids)
+        os.chdir(root)
+        try:
+            crop, fn, B, pre, _ = build(x, root, case, None)
+            ids = intended(case, B, pre)
+            script = gen_script(x, crop, case, root, ids)
+        finally:
+            os.chdir(cwd0)
         spath, tasks = static_checks(case, script, ids, root)
         check_simulation(case, script, tasks, ids,
                          [i for i in range(1, B + 1) if i not in pre])
@@ -249,31 +294,44 @@ def child_env(root):
 
 def run_executed(case):
     x = xyz()
+    cwd0 = os.getcwd()
     with core.scratch("xv-c16x-") as root:
+        os.chdir(root)
+        try:
+            return _run_executed(x, case, root)
+        finally:
+            os.chdir(cwd0)
+
+
+def _run_executed(x, case, root):
+    if True:
         logfile = os.path.join(root, "calls.log")
         crop, fn, B, pre, batch_vals = build(x, root, case, logfile)
         ids = intended(case, B, pre)
+        top, root = root, crop_parent(case, root)[0]
         if case.get("cli"):
             tasks = [None]
             cmd = [os.path.join(os.path.dirname(sys.executable),
                                 "xyzpy-grow"), "c16", "--parent-dir", root]
+            if case.get("parent_style") == "rel":
+                cmd[-1] = crop_parent(case, top)[1]
             if case["opts"].get("num_workers"):
                 cmd += ["--num-workers", str(case["opts"]["num_workers"])]
             ids = [i for i in range(1, B + 1) if i not in pre]
-            runs = [(cmd, child_env(root))]
+            runs = [(cmd, child_env(top))]
         else:
-            script = gen_script(x, crop, case, root, ids)
-            spath, tasks = static_checks(case, script, ids, root)
+            script = gen_script(x, crop, case, top, ids)
+            spath, tasks = static_checks(case, script, ids, top)
             runs = []
             for t in tasks:
-                env = child_env(root)
+                env = child_env(top)
                 if t is not None:
                     env[VAR[case["scheduler"]]] = str(t)
                 runs.append((["bash", spath], env))
         before = set(crops.result_ids(root, "c16"))
         for cmd, env in runs:
             p = subprocess.run(cmd, env=env, capture_output=True, text=True,
-                               cwd=root, timeout=600)
+                               cwd=top, timeout=600)
             bad = [ln for ln in p.stderr.splitlines()
                    if "Traceback" in ln or "Error" in ln]
             require(not bad, "task-failed",
@@ -290,6 +348,16 @@ def run_executed(case):
                 set(ids) <= after, "grew-wrong-batches",
                 f"intended {ids} (already grown {sorted(before)}): new result "
                 f"files {sorted(after - before)}")
+        # each new result file holds its batch's results, in the batch's order
+        import pickle
+        for i in sorted(after - before):
+            with open(crops.result_path(root, "c16", i), "rb") as f:
+                res = pickle.load(f)
+            want_res = tuple(models.result_of("int", {"a": a})
+                             for a in batch_vals[i])
+            require(models.deep_eq(tuple(res), want_res), "result-content",
+                    f"result {i} holds {res!r:.200}, its batch's settings "
+                    f"{batch_vals[i]} give {want_res!r:.200}")
         calls = collections.Counter(models.read_log(logfile))
         want = collections.Counter(
             models.canon_kw({"a": a}) for i in ids for a in batch_vals[i])
@@ -364,13 +432,23 @@ def strategy(draw, executed=False):
     if draw(st.booleans()):
         case["batch_ids"] = draw(st.lists(st.integers(0, 20), min_size=1,
                                           max_size=B))
-        case["ids_spelling"] = draw(st.sampled_from(["tuple", "list", "int"]))
+        case["ids_spelling"] = draw(st.sampled_from(
+            ["tuple", "list", "int", "np_tuple", "np_array", "np_int"]))
     else:
         case["batch_ids"] = None
+    case["parent_style"] = draw(st.sampled_from(["abs", "abs", "rel", "cwd"]))
     if executed:
         if "num_workers" in case["opts"] and draw(st.booleans()):
             case["opts"].pop("num_workers")
         case["cli"] = draw(st.sampled_from([False, False, False, True]))
+        if draw(st.sampled_from([False, True])) and not case["cli"]:
+            # workers inside one task: batches of several settings whose
+            # first ones finish last
+            case["opts"]["num_workers"] = 2
+            case["opts"]["num_procs"] = 2
+            case["mode"] = "array"
+            case["N"] = 2 * B + draw(st.integers(0, 2))
+            case["slow"] = True
     return case
 
 
